@@ -23,6 +23,9 @@ EVENTS = ["CONNECT", "DISCONNECT", "tg:A", "tg:B", "tg:C", "answer-all", "unreg:
 HORIZON = 135.0
 
 
+STATES: set[Any] = set()
+
+
 def run_case(seq: tuple[int, ...]) -> list[tuple[str, str]]:
     viols: list[tuple[str, str]] = []
     with CoreWorld(t0=1000.0, rate_limit=0) as w:
@@ -125,6 +128,7 @@ def run_case(seq: tuple[int, ...]) -> list[tuple[str, str]]:
                 viols.append((exc_sig(f"call-raises:{ev.split(':')[0]}", exc), f"{exc!r}; trace={trace}"))
                 break
             loop.settle()
+            STATES.add((connected, registered_b, len([f for f in holds if not f.done()]), tuple(outstanding()), tuple(repr(devs[n].resolve_state()) for n in devs), loop.timer_profile()))
         for f in holds:
             if not f.done():
                 f.set_result(None)
@@ -257,6 +261,9 @@ def worker(k: int, n: int, depth: int) -> Part:
             part.viol(s, d, list(seq), rank=(len(seq), seq))
         if part.evaluations <= 2:
             part.sample([EVENTS[e] for e in seq])
+    for k_ in STATES:
+        part.state(k_)
+    STATES.clear()
     return part
 
 
